@@ -1,4 +1,5 @@
 import Indi.Properties.C04
+import Indi.Properties.Decisions
 #print axioms Indi.Rtr.process_deliveries
 #print axioms Indi.Rtr.C04_devices
 #print axioms Indi.Rtr.C04_device_order
@@ -9,3 +10,4 @@ import Indi.Properties.C04
 #print axioms Indi.Rtr.C04_getProperties_is_relayed
 #print axioms Indi.Rtr.C04_device_bound_kinds
 #print axioms Indi.Rtr.devices_eq
+#print axioms Indi.Decisions.driverAccepts_agrees
